@@ -71,7 +71,7 @@ def register_jump(reg: Registry) -> None:
         modifies=["dict(known_labels)", "*referenced_from_other_routine", "alloc"],
         loops={
             0: dict(invariants=["is_int(routine_id)", "0 <= routine_id and routine_id <= at_loop_entry(routine_id)",
-                                "all_int(lambda q: implies(routine_id <= q and q < at_loop_entry(routine_id), old_offset < routine_end_offsets[q]))"],
+                                "all_int(lambda q: implies(routine_id <= q and q < at_loop_entry(routine_id), old_offset <= routine_end_offsets[q]))"],
                     decreases="routine_id"),
             1: dict(invariants=["is_int(routine_id)", "0 <= routine_id and routine_id < len(routine_end_offsets)", "at_loop_entry(routine_id) <= routine_id",
                                 "all_int(lambda q: implies(at_loop_entry(routine_id) <= q and q < routine_id, old_offset > routine_end_offsets[q]))"],
